@@ -3,7 +3,7 @@ from props.common import *
 
 ASSUMPTIONS = ['code points not listed in UnicodeData 16.0.0 default to class L in both the implementation and the specification (unassigned code points never reach this rule through a profile)']
 TRUSTED = ['Bidi_Class of Unicode 16.0.0 as parsed by tools/ucd_spec.py', 'transcription of RFC 5893 section 2 in lean/Precis/Spec/Rfc5893.lean']
-FACT_MODULES = ['Precis.Facts.Prof']
+FACT_MODULES = ['Precis.Facts.Prof', 'Precis.Facts.SrcTie']
 KNOWN_ID = 'bidi-interior-nsm'
 
 
